@@ -20,7 +20,7 @@ ASSUME = [
 
 def consts(part, NA, NI, emit=True):
     c = dict(ARR)
-    c.update({"NA": NA, "NK": {2: 2, 3: 3, 7: 5, 8: 6}[NA], "KeyOf": {2: "<-KeyOf3", 3: "<-KeyOf3", 7: "<-KeyOf7", 8: "<-KeyOf8"}[NA], "NI": NI,
+    c.update({"NA": NA, "NK": {2: 2, 3: 3, 7: 5, 8: 6, 9: 7}[NA], "KeyOf": {2: "<-KeyOf3", 3: "<-KeyOf3", 7: "<-KeyOf7", 8: "<-KeyOf8", 9: "<-KeyOf9"}[NA], "NI": NI,
               "Part": part, "DoEmit": emit})
     return c
 
@@ -200,10 +200,10 @@ def c17(tier, seed, wd, replay=None):
                 "class = last call x path length; non-trivial = every trace")
     if tier == "quick":
         run_part(run, "C17", "semi-4cls-2args", consts("semi", 2, 3), wd)
-        run_part(run, "C17", "semi-sim-8args", consts("semi", 8, 6), wd, simulate="num=40", depth=15, seed=seed + 5, limit=6000)
+        run_part(run, "C17", "semi-sim-9args", consts("semi", 9, 6), wd, simulate="num=40", depth=15, seed=seed + 5, limit=6000)
     else:
         run_part(run, "C17", "semi-4cls-3args", consts("semi", 3, 3), wd, limit=80000)
-        run_part(run, "C17", "semi-sim-8args", consts("semi", 8, 8), wd, simulate="num=300", depth=25, seed=seed + 5, limit=40000)
+        run_part(run, "C17", "semi-sim-9args", consts("semi", 9, 8), wd, simulate="num=300", depth=25, seed=seed + 5, limit=40000)
     run.exhaustive = True
     run.assumptions = ASSUME
     return run.finish(nontrivial_filter=lambda c: True,
